@@ -187,6 +187,137 @@ theorem C05_illtyped_spec (env : Env) (rf : Form → GS → Res → Option (List
   have : ¬ tys.length < i.args.length := by omega
   simp [hsig, hall, hb, this, hw]
 
+/-! ## Frame: operators outside the property's list change no glyph -/
+
+/-- **Frame theorem, interpreter, unconditional**: a keyword that is not one of the 33 operators of
+the property — path construction and painting, clipping `W W*`, marked content `BMC BDC EMC MP DP`,
+`BX EX`, `sh`, the general graphics state operators, `BI ID EI`, and any unknown keyword — shows no
+glyph and leaves every component of the interpreter and device state as it was, except that
+`execute` takes the operands of the operator (a suffix of the operand stack) away.  For **every**
+state, operand stack and form runner. -/
+theorem C05_unlisted_frame (env : Env) (rf : Form → MState → List Glyph × Bool) (m : MState) (n : String) :
+    ∃ k, execTok env rf m (.op (.other n)) = ({ m with argstack := m.argstack.take k }, []) := by
+  have hc : ∀ (st : MState) (args : List Obj), call env rf st (Op.other n) args = (st, []) := by
+    intro st args; simp [call]
+  simp only [execTok]
+  cases arity (Op.other n) with
+  | none => exact ⟨m.argstack.length, by simp⟩
+  | some k =>
+    cases k with
+    | zero => exact ⟨m.argstack.length, by simp [hc]⟩
+    | succ k =>
+      refine ⟨m.argstack.length - (k + 1), ?_⟩
+      simp only [pop, hc]
+      split <;> rfl
+
+/-- **Frame theorem for the listed neutral operators** (Tables 57, 59–61, 77, 320, 32): with at most
+the operands ISO gives them — of any type, `null`s included — the interpreter is afterwards in
+exactly the state it was in: nothing is left on the operand stack either.  The operand count comes
+from the regenerated `do_*` table (`neutral_arity`). -/
+theorem C05_unlisted_noop (env : Env) (rf : Form → MState → List Glyph × Bool) (m : MState) (n : String) (k : Nat)
+    (args : List Obj) (hk : neutralArity n = some k) (hlen : args.length ≤ k) (hargs : m.argstack = []) :
+    execToks env rf m (Instr.toks ⟨.other n, args⟩) = (m, []) := by
+  rw [execToks_instr]
+  simp only
+  rw [hargs, List.nil_append]
+  have ha := neutral_arity n k hk
+  have hle := pushed_length_le args
+  have hc : ∀ (st : MState) (a : List Obj), call env rf st (Op.other n) a = (st, []) := by
+    intro st a; simp [call]
+  cases k with
+  | zero =>
+    have : args = [] := by
+      cases args with
+      | nil => rfl
+      | cons a r => simp at hlen
+    subst this
+    rw [show pushed [] = [] from rfl, mstate_args_nil m hargs, execTok_zero env rf m _ ha, hc]
+  | succ k =>
+    by_cases hlt : (pushed args).length < k + 1
+    · rw [execTok_short env rf m _ k _ ha hlt, mstate_args_nil m hargs]
+    · rw [execTok_exact env rf m _ k _ ha (by omega), mstate_args_nil m hargs, hc]
+
+/-- … and the text model: wherever it admits such an operator (Figure 9, operand count) the
+operator changes neither the graphics state, the text object, the saved states nor the resources,
+and shows nothing.  With `C05_step`/`C05_program` this puts every page that mixes text with
+vector graphics, clipping and marked content inside the proved equality. -/
+theorem C05_unlisted_spec (env : Env) (rf : Form → GS → Res → Option (List Glyph)) (s s' : SState) (n : String)
+    (args : List Obj) (gl : List Glyph) (h : step env rf s ⟨.other n, args⟩ = some (s', gl)) : s' = s ∧ gl = [] := by
+  obtain ⟨tys, _, _, _, _, hcase⟩ := step_inv h
+  rcases hcase with ⟨_, rfl, rfl⟩ | ⟨_, happ⟩
+  · exact ⟨rfl, rfl⟩
+  · simp only [apply, Option.some.injEq, Prod.mk.injEq] at happ
+    exact ⟨happ.1.symm, happ.2.symm⟩
+
+/-- The text model admits each of them with at most the operand count of the ISO tables: at page
+level all of them, inside a text object those Figure 9 allows there (general graphics state, marked
+content, `BX EX`). -/
+theorem C05_unlisted_admitted (env : Env) (rf : Form → GS → Res → Option (List Glyph)) (s : SState) (n : String)
+    (k : Nat) (args : List Obj) (hk : neutralArity n = some k) (hlen : args.length ≤ k)
+    (hb : args.any Obj.isBool = false) (hplace : s.txt = none ∨ neutralInText n = true) :
+    step env rf s ⟨.other n, args⟩ = some (s, []) := by
+  have hall : allowed s.txt.isSome (.other n) = true := by
+    rcases hplace with h | h
+    · simp [allowed, h, hk, isTextState, isColour]
+    · cases ht : s.txt with
+      | none => simp [allowed, hk, isTextState, isColour]
+      | some t => simp [allowed, h, isTextState, isColour]
+  unfold step
+  simp only [sig, hk, Option.map_some, hall, Bool.not_true, Bool.false_eq_true, if_false, hb, List.length_replicate]
+  have : ¬ k < args.length := by omega
+  simp only [this, if_false]
+  split
+  · rfl
+  · simp [apply]
+
+/-- The instructions of a program that belong to the property's list. -/
+def listed (is : List Instr) : List Instr := is.filter (fun i => match i.op with | .other _ => false | _ => true)
+
+/-- **Frame theorem at program level** (text model): deleting every operator outside the property's
+list — all vector graphics, clipping, marked content, general graphics state — from a program the
+text model gives a meaning to leaves the meaning (final state and glyphs) as it is. -/
+theorem C05_unlisted_erase (env : Env) (rf : Form → GS → Res → Option (List Glyph)) (is : List Instr) :
+    ∀ (s s' : SState) (gl : List Glyph), runInstrs env rf s is = some (s', gl) →
+      runInstrs env rf s (listed is) = some (s', gl) := by
+  induction is with
+  | nil => intro s s' gl h; simpa [listed] using h
+  | cons i rest ih =>
+    intro s s' gl h
+    simp only [runInstrs] at h
+    split at h
+    · simp at h
+    · rename_i s1 g1 h1
+      split at h
+      · simp at h
+      · rename_i s2 g2 h2
+        simp only [Option.some.injEq, Prod.mk.injEq] at h
+        obtain ⟨rfl, rfl⟩ := h
+        have ih' := ih s1 s2 g2 h2
+        obtain ⟨op, args⟩ := i
+        cases op
+        case other n =>
+          obtain ⟨rfl, rfl⟩ := C05_unlisted_spec env rf s s1 n args g1 h1
+          simpa [listed] using ih'
+        all_goals
+          have ih'' : runInstrs env rf s1
+              (List.filter (fun i => match i.op with | .other _ => false | _ => true) rest) = some (s2, g2) := ih'
+          simp only [listed, List.filter_cons, ↓reduceIte, runInstrs, h1, ih'']
+
+/-- … hence for whole pages, and with `C05_program` for pdfminer: the glyphs the interpreter reports
+for a page that mixes text with such operators are the glyphs the text model assigns to the page
+*without* them. -/
+theorem C05_unlisted_erase_page (env : Env) (fuel : Nat) (ctm : Matrix) (res : Res) (streams : List (List Tok))
+    (is : List Instr) (trail : List Obj) (gl : List Glyph) (hparse : parseInstrs streams.flatten [] = (is, trail))
+    (h : TextModel.runPage env fuel ctm res is = some gl) :
+    TextModel.runPage env fuel ctm res (listed is) = some gl ∧ (Interp.runPage env fuel ctm res streams).2 = gl := by
+  refine ⟨?_, (C05_program env fuel ctm res streams is trail gl hparse h).1⟩
+  unfold TextModel.runPage runStream at h ⊢
+  split at h
+  · simp at h
+  · rename_i s' gl' hrun
+    rw [C05_unlisted_erase env _ is _ s' gl' hrun]
+    exact h
+
 /-! ## The rules of 9.3–9.4, stated on the interpreter alone -/
 
 /-- Showing one string, horizontal writing: the pen moves by `tx = (w0·Tfs + Tc + Tw?)·Th` per
@@ -228,6 +359,110 @@ theorem C05_glyph (f : Font) (M : Matrix) (gs : GS) (x y : Rat) (c : Nat) :
     ltchar (translate_matrix (mult_matrix M gs.ctm) (x, y)) f gs.Tfs (rs_scaling gs.Th) gs.Trise c gs.fill
       = observe (mult_matrix (translate_matrix M (x, y)) gs.ctm) f gs c :=
   ltchar_eq_observe f M gs.ctm gs x y c rfl
+
+/-- **The glyph box for every matrix** — negative scales (mirrored text), rotations, skews,
+singular matrices: `LTChar.bbox` is the bounding box of the four corners of the text-space glyph box
+(`ltcharBox`: regenerated formulas of `LTChar.__init__`) under `render_char`'s matrix: it is
+`apply_matrix_rect` (the swaps after it never fire), it contains all four transformed corners,
+each of its sides passes through one of them, `size` is its height (vertical writing: its width)
+and is never negative. -/
+theorem C05_glyph_bbox (matrix : Matrix) (f : Font) (fs sc rise : Rat) (c : Nat) (col : Option Color) :
+    let g := ltchar matrix f fs sc rise c col
+    let box := ltcharBox f fs sc rise c
+    g.bbox = apply_matrix_rect matrix box ∧
+    (∀ p ∈ corners matrix box, g.bbox.1 ≤ p.1 ∧ p.1 ≤ g.bbox.2.2.1 ∧ g.bbox.2.1 ≤ p.2 ∧ p.2 ≤ g.bbox.2.2.2) ∧
+    ((∃ p ∈ corners matrix box, p.1 = g.bbox.1) ∧ (∃ p ∈ corners matrix box, p.2 = g.bbox.2.1) ∧
+     (∃ p ∈ corners matrix box, p.1 = g.bbox.2.2.1) ∧ (∃ p ∈ corners matrix box, p.2 = g.bbox.2.2.2)) ∧
+    g.size = (if f.vertical then g.bbox.2.2.1 - g.bbox.1 else g.bbox.2.2.2 - g.bbox.2.1) ∧ 0 ≤ g.size := by
+  intro g box
+  obtain ⟨hb, hs⟩ := ltchar_bbox_eq matrix f fs sc rise c col
+  have ho := rect_ordered matrix box
+  refine ⟨hb, ?_, ?_, ?_, ?_⟩
+  · rw [show g.bbox = _ from hb]; exact rect_contains matrix box
+  · rw [show g.bbox = _ from hb]; exact rect_tight matrix box
+  · rw [show g.bbox = _ from hb]; exact hs
+  · rw [show g.size = _ from hs]
+    split
+    · have := ho.1; grind
+    · have := ho.2; grind
+
+/-- Closed form for axis-parallel matrices `[a 0 0 d e f]` with **any signs** of `a`, `d`: horizontal
+writing, box `(0, lo, adv, lo + Tfs)` ↦ x from `e` to `a·adv + e`, y from `d·lo + f` to
+`d·(lo + Tfs) + f`, each pair ordered by min/max; the reported size is `|d·Tfs|`. -/
+theorem C05_glyph_bbox_axis (a d e f' : Rat) (f : Font) (fs sc rise : Rat) (c : Nat) (col : Option Color)
+    (hv : f.vertical = false) :
+    let g := ltchar (a, 0, 0, d, e, f') f fs sc rise c col
+    let lo := ltchar_descent (font_get_descent f.descent (fontVScale f)) fs + rise
+    g.bbox = (min e (a * g.adv + e), min (d * lo + f') (d * (lo + fs) + f'),
+              max e (a * g.adv + e), max (d * lo + f') (d * (lo + fs) + f')) ∧
+    g.size = (if 0 ≤ d * fs then d * fs else -(d * fs)) := by
+  intro g lo
+  obtain ⟨hb, hs⟩ := ltchar_bbox_eq (a, 0, 0, d, e, f') f fs sc rise c col
+  have hadv : g.adv = ltchar_adv (charWidth f c) fs sc := by
+    rw [show g.adv = _ from ltchar_adv_eq _ f fs sc rise c col]; simp [hv]
+  have hbox : ltcharBox f fs sc rise c = (0, lo, g.adv, lo + fs) := by
+    simp only [ltcharBox, hv, Bool.false_eq_true, if_false, ltchar_bbox_h, hadv, lo]
+  rw [hbox, rect_axis] at hb hs
+  simp only [hv, Bool.false_eq_true, if_false] at hs
+  refine ⟨by rw [show g.bbox = _ from hb]; simp only [Prod.mk.injEq]; refine ⟨?_, ?_, ?_, ?_⟩ <;> grind, ?_⟩
+  rw [show g.size = _ from hs]
+  split <;> grind
+
+/-- Closed form for quarter turns `[0 b c 0 e f]` (text running up or down the page): the box's x
+range comes from the glyph's height and its y range from the advance — the reported `size` (box
+height) is then `|b·adv|`, the length of the advance, not the font size. -/
+theorem C05_glyph_bbox_quarter (b c' e f' : Rat) (f : Font) (fs sc rise : Rat) (c : Nat) (col : Option Color)
+    (hv : f.vertical = false) :
+    let g := ltchar (0, b, c', 0, e, f') f fs sc rise c col
+    let lo := ltchar_descent (font_get_descent f.descent (fontVScale f)) fs + rise
+    g.bbox = (min (c' * lo + e) (c' * (lo + fs) + e), min f' (b * g.adv + f'),
+              max (c' * lo + e) (c' * (lo + fs) + e), max f' (b * g.adv + f')) ∧
+    g.size = (if 0 ≤ b * g.adv then b * g.adv else -(b * g.adv)) := by
+  intro g lo
+  obtain ⟨hb, hs⟩ := ltchar_bbox_eq (0, b, c', 0, e, f') f fs sc rise c col
+  have hadv : g.adv = ltchar_adv (charWidth f c) fs sc := by
+    rw [show g.adv = _ from ltchar_adv_eq _ f fs sc rise c col]; simp [hv]
+  have hbox : ltcharBox f fs sc rise c = (0, lo, g.adv, lo + fs) := by
+    simp only [ltcharBox, hv, Bool.false_eq_true, if_false, ltchar_bbox_h, hadv, lo]
+  rw [hbox, rect_quarter] at hb hs
+  simp only [hv, Bool.false_eq_true, if_false] at hs
+  refine ⟨by rw [show g.bbox = _ from hb]; simp only [Prod.mk.injEq]; refine ⟨?_, ?_, ?_, ?_⟩ <;> grind, ?_⟩
+  rw [show g.size = _ from hs]
+  split <;> grind
+
+/-- **`LTChar.upright`** (regenerated from `LTChar.__init__`) is the text model's `uprightOf` of the
+text rendering matrix and `Th`, for every matrix; `C05_program` now also equates this field. -/
+theorem C05_glyph_upright (matrix : Matrix) (f : Font) (fs th rise : Rat) (c : Nat) (col : Option Color) :
+    (ltchar matrix f fs (rs_scaling th) rise c col).upright = uprightOf matrix th := by
+  obtain ⟨a, b, c', d, e, f'⟩ := matrix
+  simp only [ltchar]
+  exact upright_eq (a, b, c', d, e, f') th
+
+/-- What that means: under an axis-parallel matrix (positive `Th`) a glyph is upright exactly when it
+is not mirrored in one axis only (`a·d > 0`: `[-1 0 0 -1]`, text turned by 180°, counts as upright);
+under a quarter turn it never is. -/
+theorem C05_upright_axis (a d e f th : Rat) (hth : 0 < th) :
+    uprightOf (a, 0, 0, d, e, f) th = decide (0 < a * d) := by
+  simp only [uprightOf]
+  have h : (0 < a * d * (th / 100)) = (0 < a * d) := by
+    apply propext
+    have h100 : th / 100 = th * (1 / 100) := by grind
+    constructor
+    · intro h
+      by_cases hp : 0 < a * d
+      · exact hp
+      · have : a * d * (th / 100) ≤ 0 := by
+          have h1 : a * d ≤ 0 := by grind
+          have h2 : 0 ≤ th / 100 := by grind
+          have h3 : 0 ≤ (-(a * d)) * (th / 100) := Rat.mul_nonneg (by grind) h2
+          grind
+        grind
+    · intro h
+      exact Rat.mul_pos h (by grind)
+  simp [h]
+
+theorem C05_upright_quarter (b c e f th : Rat) : uprightOf (0, b, c, 0, e, f) th = false := by
+  simp [uprightOf]
 
 /-! ## The nesting budget is only a bound -/
 
@@ -377,6 +612,64 @@ example :
     r.2.length = 1 ∧ r.1.fuelOk = true ∧
       TextModel.runPage env 5 MATRIX_IDENTITY ⟨[("F1", 0)], [("X0", 0)], [], []⟩
         [⟨.Tf, [.name "F1", .num 10]⟩, ⟨.Do, [.name "X0"]⟩] = none := by decide +kernel
+
+/-- A page mixing text with vector graphics, clipping, marked content and general graphics state:
+`/F1 10 Tf q 0 0 10 10 re W n /Span BMC 2 w [3] 0 d BT /P /MC0 BDC 1 J 5 6 Td (!) Tj EMC ET EMC 0 0 m 5 5 l S
+1 2 3 4 5 6 c h f* /Sh0 sh re Q` (the last `re` has lost its operands) — the text model gives it the
+one glyph of the page without these operators, at the same place (hypotheses of
+`C05_unlisted_spec`, `C05_unlisted_admitted` and `C05_program` are met by a non-trivial page). -/
+private def exMixed : List Instr :=
+  [⟨.Tf, [.name "F1", .num 10]⟩, ⟨.q, []⟩, ⟨.other "re", [.num 0, .num 0, .num 10, .num 10]⟩, ⟨.other "W", []⟩,
+   ⟨.other "n", []⟩, ⟨.other "BMC", [.name "Span"]⟩, ⟨.other "w", [.num 2]⟩, ⟨.other "d", [.arr [.num 3], .num 0]⟩,
+   ⟨.BT, []⟩, ⟨.other "BDC", [.name "P", .name "MC0"]⟩, ⟨.other "J", [.num 1]⟩, ⟨.Td, [.num 5, .num 6]⟩,
+   ⟨.Tj, [.str [33]]⟩, ⟨.other "EMC", []⟩, ⟨.ET, []⟩, ⟨.other "EMC", []⟩,
+   ⟨.other "m", [.num 0, .num 0]⟩, ⟨.other "l", [.num 5, .num 5]⟩, ⟨.other "S", []⟩,
+   ⟨.other "c", [.num 1, .num 2, .num 3, .num 4, .num 5, .num 6]⟩, ⟨.other "h", []⟩, ⟨.other "f_a", []⟩,
+   ⟨.other "sh", [.name "Sh0"]⟩, ⟨.other "re", []⟩, ⟨.Q, []⟩]
+
+example : (TextModel.runPage exEnv 3 MATRIX_IDENTITY exRes exMixed).map (fun l => l.map (fun g => (g.m.2.2.2.2.1, g.m.2.2.2.2.2)))
+    = some [(5, 6)] ∧
+    TextModel.runPage exEnv 3 MATRIX_IDENTITY exRes exMixed =
+      TextModel.runPage exEnv 3 MATRIX_IDENTITY exRes
+        (listed exMixed) ∧
+    (listed exMixed).length = 7 ∧ exMixed.length = 25 := by decide +kernel
+
+/-- … and the interpreter reports the same glyph (`C05_program` instantiated). -/
+example : (Interp.runPage exEnv 3 MATRIX_IDENTITY exRes [exMixed.flatMap Instr.toks]).2.map (fun g => (g.m.2.2.2.2.1, g.m.2.2.2.2.2))
+    = [(5, 6)] := by decide +kernel
+
+/-- Path painting inside a text object is outside Figure 9: the text model gives no meaning, while
+marked content and `w` are admitted there. -/
+example : neutralArity "re" = some 4 ∧ neutralArity "BDC" = some 2 ∧ neutralArity "xyz" = none ∧
+    allowed true (.other "re") = false ∧ allowed true (.other "BMC") = true ∧ allowed false (.other "re") = true := by
+  decide +kernel
+
+/-- `C05_unlisted_frame` on a state with operands: `1 2 3 re` takes all three away, `7 xyz` none. -/
+example : (execTok exEnv (fun _ _ => ([], true)) { MState.init MATRIX_IDENTITY exRes with argstack := [.num 1, .num 2, .num 3] }
+      (.op (.other "re"))).1.argstack = [] ∧
+    (execTok exEnv (fun _ _ => ([], true)) { MState.init MATRIX_IDENTITY exRes with argstack := [.num 7] }
+      (.op (.other "xyz"))).1.argstack = [.num 7] := by decide +kernel
+
+/-- `C05_glyph_bbox*` on concrete glyphs of `exFont` (width 500 for code 33, descent −200) at size 10:
+mirrored `[-2 0 0 3 100 50]` — the box runs from x = 90 to 100; upside down `[1 0 0 -1 0 0]`; a
+quarter turn `[0 1 -1 0 40 60]` — size 5 = the advance; a 45°-like rotation-with-scale `[1 1 -1 1 0 0]`. -/
+example : (ltchar (-2, 0, 0, 3, 100, 50) exFont 10 1 0 33 none).bbox = (90, 44, 100, 74) ∧
+    (ltchar (-2, 0, 0, 3, 100, 50) exFont 10 1 0 33 none).size = 30 ∧
+    (ltchar (1, 0, 0, -1, 0, 0) exFont 10 1 2 33 none).bbox = (0, -10, 5, 0) ∧
+    (ltchar (0, 1, -1, 0, 40, 60) exFont 10 1 0 33 none).bbox = (32, 60, 42, 65) ∧
+    (ltchar (0, 1, -1, 0, 40, 60) exFont 10 1 0 33 none).size = 5 ∧
+    (ltchar (1, 1, -1, 1, 0, 0) exFont 10 1 0 33 none).bbox = (-8, -2, 7, 13) ∧
+    ltcharBox exFont 10 1 0 33 = (0, -2, 5, 8) ∧
+    corners (1, 1, -1, 1, 0, 0) (0, -2, 5, 8) = [(2, -2), (7, 3), (-3, 13), (-8, 8)] := by decide +kernel
+
+/-- `upright` on concrete glyphs: plain and 180° text are, mirrored, quarter-turned and text under a
+negative `Tz` are not; a rotation by less than 90° (`[4/5 3/5 -3/5 4/5]`) is. -/
+example : (ltchar (2, 0, 0, 2, 10, 20) exFont 10 (rs_scaling 100) 0 33 none).upright = true ∧
+    (ltchar (-1, 0, 0, -1, 10, 20) exFont 10 (rs_scaling 100) 0 33 none).upright = true ∧
+    (ltchar (-2, 0, 0, 3, 100, 50) exFont 10 (rs_scaling 100) 0 33 none).upright = false ∧
+    (ltchar (0, 1, -1, 0, 40, 60) exFont 10 (rs_scaling 100) 0 33 none).upright = false ∧
+    (ltchar (2, 0, 0, 2, 10, 20) exFont 10 (rs_scaling (-100)) 0 33 none).upright = false ∧
+    (ltchar (4/5, 3/5, -3/5, 4/5, 0, 0) exFont 10 (rs_scaling 100) 0 33 none).upright = true := by decide +kernel
 
 /-- The initial states are related (hypothesis `hR` of `C05_step` is satisfiable). -/
 example : R exEnv (MState.init MATRIX_IDENTITY exRes) ⟨GS.init MATRIX_IDENTITY, [], none, exRes⟩ :=
